@@ -23,15 +23,19 @@ func faProject(f *fasta.Fasta) faRec { return faRec{ints(f.Name), ints(f.Sequenc
 // faRead runs the real Reader over data and returns the projected items.
 func faRead(data []byte) (items []faRec, gotErr bool, panicked bool) {
 	items = []faRec{}
+	var kept []*fasta.Fasta // records are projected after the iteration: a delivered record must stay what it was
 	panicked, _ = catch(func() {
 		for f, err := range fasta.Reader(bytes.NewReader(data)) {
 			if err != nil {
 				gotErr = true
 				continue
 			}
-			items = append(items, faProject(f))
+			kept = append(kept, f)
 		}
 	})
+	for _, f := range kept {
+		items = append(items, faProject(f))
+	}
 	return
 }
 
@@ -253,8 +257,14 @@ func fastaDrive(args []string) error {
 		for _, f := range recs {
 			want = append(want, faProject(f))
 		}
-		// write events
+		// write events. The bytes returned by MarshalText are kept as they are until every record of the session has been
+		// marshalled and written: a returned text must stay what it was (no shared or pooled buffer).
 		var own []byte
+		type held struct {
+			ev faEvent
+			bm []byte
+		}
+		var hs []held
 		for _, f := range recs {
 			ev := faEvent{Sid: sid, Op: "write", Kind: "write", Name: ints(f.Name), Seq: ints(f.Sequence),
 				Bytes: []int{}, Want: []faRec{}, Items: []faRec{}}
@@ -272,9 +282,13 @@ func fastaDrive(args []string) error {
 			if !bytes.Equal(nameBefore, f.Name) || !bytes.Equal(seqBefore, f.Sequence) {
 				ev.Panic = true // writer modified the record
 			}
-			ev.BW, ev.BM = ints(buf.Bytes()), ints(bm)
+			ev.BW = ints(buf.Bytes())
 			own = append(own, buf.Bytes()...)
-			tw.emit(ev)
+			hs = append(hs, held{ev, bm})
+		}
+		for _, h := range hs {
+			h.ev.BM = ints(h.bm)
+			tw.emit(h.ev)
 		}
 		// read events
 		emitRead := func(kind string, data []byte) {
